@@ -5,7 +5,9 @@ P="$1"; shift
 cd /repo || exit 2
 git diff --quiet || { echo "/repo dirty"; exit 2; }
 git apply "$P" || { echo "patch does not apply"; exit 2; }
+mkdir -p /verif/.work; rm -rf /verif/.work/evidence_keep; cp -r /verif/evidence /verif/.work/evidence_keep   # evidence stays that of clean-tree runs
 for c in "$@"; do
   ( cd /verif && ./check "$c" 2>&1 | grep -E "VIOLATION|tier=" | head -4 )
 done
 git checkout -- . ; git status --short | head -3
+rm -rf /verif/evidence; mv /verif/.work/evidence_keep /verif/evidence
